@@ -19,8 +19,15 @@ lemma blk_shift(line string, rem string, orig string, c int, k int)
   requires c <= k && k < c + len(line) && isblk(line[k - c]) && line[k - c] == rem[k - c] && rem[k - c] == orig[k]
   ensures isblk(orig[k])
 
+// what trim() returns: the line without the blanks at either end
+pure func trimS(s string) string { s[trimsetlo(s, "\n\r\t "):trimsethi(s, "\n\r\t ")] }
+// the two halves partition() returns
+pure func p0(s string, d string) string { indexStr(s, d) < 0 ? s : s[:indexStr(s, d)] }
+pure func p1(s string, d string) string { indexStr(s, d) < 0 ? "" : s[indexStr(s, d)+len(d):] }
+
 func trim
   ensures (len(result) == 0) == (forall k int :: 0 <= k && k < len(line) ==> isblk(line[k]))
+  ensures result == trimS(line)
 
 // split at the FIRST delimiter; everything after it is kept as written (an option value may contain '=', a maintainer
 // name "--"); without a delimiter the whole line is the first part
@@ -28,6 +35,7 @@ func partition
   requires len(delim) >= 1
   ensures indexStr(line, delim) < 0 ==> result0 == line && result1 == ""
   ensures indexStr(line, delim) >= 0 ==> result0 == line[:indexStr(line, delim)] && result1 == line[indexStr(line, delim)+len(delim):]
+  ensures result0 == p0(line, delim) && result1 == p1(line, delim)
 
 // the next line of the input, also when the last line has no final newline; io.EOF only when nothing is left
 func readLine
@@ -54,6 +62,12 @@ func ParseOne
   // the change text is VERBATIM: one contiguous piece of the input, byte for byte (blank lines, indentation and line
   // endings as written)
   ensures result1 == nil ==> (exists s int, e int :: 0 <= s && s <= e && e <= len(old(reader.rem)) && result0.Changelog == old(reader.rem)[s:e])
+  // source name and distribution list are the pieces of the FIRST non-blank line of the input (the header): the name
+  // is what precedes the first '(' of the part before the first ';', the distributions what follows the first ')'
+  ensures result1 == nil ==> (exists a int, b int :: 0 <= a && a < b && b <= len(old(reader.rem)) &&
+      (forall k int :: 0 <= k && k < a ==> isblk(old(reader.rem)[k])) &&
+      result0.Source == trimS(p0(p0(old(reader.rem)[a:b], ";"), "(")) &&
+      result0.Target == trimS(p1(p1(p0(old(reader.rem)[a:b], ";"), "("), ")")))
   // an entry is returned only after input was consumed
   ensures len(reader.rem) <= len(old(reader.rem))
   ensures result1 == nil ==> len(reader.rem) < len(old(reader.rem))
@@ -68,11 +82,17 @@ func ParseOne
     invariant -1 <= rangeindex && rangeindex < len(ranged()) && changeLog.Arguments != nil && reader != nil && len(reader.rem) < len(old(reader.rem))
     invariant forall j int :: len(old(reader.rem)) - len(reader.rem) <= j && j < len(old(reader.rem)) ==> old(reader.rem)[j] == reader.rem[j - (len(old(reader.rem)) - len(reader.rem))]
     invariant changeLog.Changelog == ""
+    invariant header == old(reader.rem)[at(L2.entry, len(old(reader.rem)) - len(reader.rem)) - len(header) : at(L2.entry, len(old(reader.rem)) - len(reader.rem))] && len(header) >= 1 && at(L2.entry, len(old(reader.rem)) - len(reader.rem)) - len(header) >= 0 && at(L2.entry, len(old(reader.rem)) - len(reader.rem)) <= len(old(reader.rem))
+    invariant forall k int :: 0 <= k && k < at(L2.entry, len(old(reader.rem)) - len(reader.rem)) - len(header) ==> isblk(old(reader.rem)[k])
+    invariant changeLog.Source == trimS(p0(p0(header, ";"), "(")) && changeLog.Target == trimS(p1(p1(p0(header, ";"), "("), ")"))
     decreases len(ranged()) - rangeindex
   loop 3:
     invariant reader != nil && len(reader.rem) < len(old(reader.rem)) && changeLog.Arguments != nil
     invariant forall j int :: len(old(reader.rem)) - len(reader.rem) <= j && j < len(old(reader.rem)) ==> old(reader.rem)[j] == reader.rem[j - (len(old(reader.rem)) - len(reader.rem))]
     invariant at(L3.entry, len(old(reader.rem)) - len(reader.rem)) <= len(old(reader.rem)) - len(reader.rem) && at(L3.entry, len(old(reader.rem)) - len(reader.rem)) >= 0
+    invariant header == old(reader.rem)[at(L2.entry, len(old(reader.rem)) - len(reader.rem)) - len(header) : at(L2.entry, len(old(reader.rem)) - len(reader.rem))] && len(header) >= 1 && at(L2.entry, len(old(reader.rem)) - len(reader.rem)) - len(header) >= 0 && at(L2.entry, len(old(reader.rem)) - len(reader.rem)) <= len(old(reader.rem))
+    invariant forall k int :: 0 <= k && k < at(L2.entry, len(old(reader.rem)) - len(reader.rem)) - len(header) ==> isblk(old(reader.rem)[k])
+    invariant changeLog.Source == trimS(p0(p0(header, ";"), "(")) && changeLog.Target == trimS(p1(p1(p0(header, ";"), "("), ")"))
     invariant changeLog.Changelog == old(reader.rem)[at(L3.entry, len(old(reader.rem)) - len(reader.rem)) : len(old(reader.rem)) - len(reader.rem)]
       by {
         assert line#2 == old(reader.rem)[len(old(reader.rem)) - len(at(L3.head, reader.rem)) : len(old(reader.rem)) - len(reader.rem)]
